@@ -116,3 +116,56 @@ def run(col, prop, deadline, modes=('normpath', 'redopath', 'meta'), count=250, 
             else:
                 col.add(dict(verdict='inconclusive', why='Miri shard failed: rc=%s %s' % (r.get('rc'), (r.get('err') or '')[-300:]), sample=sample))
     return dict(miri=dict(selftest='planted out-of-bounds read reported', calls_interpreted=total, modes=list(modes), shards=len(jobs), flags='-Zmiri-disable-isolation (default Stacked Borrows)'))
+
+
+# Unit tests of the crate under test that Miri cannot run: two fork() tests (foreign function), and the one that drives
+# possible_do_files (ouroboros 0.15 drop glue, see the module comment).
+UNIT_SKIP = ('jobserver::tests::start_job', 'jobserver::tests::sleep_concurrently_with_job', 'paths::tests::possible_do_files_test')
+
+
+def unit_tests(col, prop, filters, deadline):
+    """The crate's own unit tests (the modules named by `filters`), interpreted by Miri from the harness workspace
+    (`cargo miri test -p redo --lib`): their assertions are the oracle, Miri watches the unsafe code they reach
+    (RedoPath/RedoPathBuf unchecked conversions, LazyBuf, OsBytes, the interval timer wrapper).  One case per filter."""
+    crate, why = ensure()
+    if crate is None:
+        col.add(dict(verdict='inconclusive', why='Miri layer unavailable: %s' % why))
+        return {}
+    env = dict(os.environ, CARGO_NET_OFFLINE='true', MIRIFLAGS='-Zmiri-disable-isolation', CARGO_TARGET_DIR=os.path.join(MIRI_DIR, 'target'))
+    out = {}
+    procs = []
+    for flt in filters:
+        argv = ['cargo', '+nightly', 'miri', 'test', '--offline', '-p', 'redo', '--lib', '--', flt]
+        for sk in UNIT_SKIP:
+            argv += ['--skip', sk]
+        procs.append((flt, time.time(), subprocess.Popen(argv, cwd=crate, env=env, stdout=subprocess.PIPE, stderr=subprocess.PIPE, text=True)))
+        if len(procs) == 1:
+            # the first one builds the test harness for the Miri target; let it get ahead
+            try:
+                procs[0][2].wait(timeout=max(60, min(600, deadline - time.time())))
+            except subprocess.TimeoutExpired:
+                pass
+    for flt, t0, p in procs:
+        try:
+            so, se = p.communicate(timeout=max(30, deadline - time.time()))
+        except subprocess.TimeoutExpired:
+            p.kill()
+            col.add(dict(verdict='inconclusive', why='Miri unit tests (%s) timed out' % flt, sample=dict(kind='miri-unit', filter=flt)))
+            continue
+        m = re.search(r'test result: (\w+)\. (\d+) passed; (\d+) failed', so)
+        ub = re.search(r'error: Undefined Behavior[^\n]*(?:\n[^\n]*){0,12}', se)
+        sample = dict(kind='miri-unit', filter=flt, wall_s=round(time.time() - t0, 1), passed=int(m.group(2)) if m else None)
+        if ub:
+            col.add(dict(verdict='violated', nontrivial=True, shape='miri-unit:' + flt, sample=sample,
+                         violations=[dict(key='miri-undefined-behaviour:unit-tests:%s' % flt, what=ub.group(0)[:900])], replay=dict(kind='miri-unit', filter=flt)))
+        elif m and m.group(1) == 'ok' and int(m.group(2)) > 0:
+            out[flt] = int(m.group(2))
+            col.add(dict(verdict='held', nontrivial=True, shape='miri-unit:' + flt, sample=sample,
+                         obs=dict(miri_unit_tests=int(m.group(2)), miri_processes=1), sets=dict(miri_modes=['unit:' + flt])))
+        elif m and int(m.group(3)) > 0:
+            # an assertion of the crate's own test failed under Miri but not natively: report, it is a behavioural difference
+            col.add(dict(verdict='violated', nontrivial=True, shape='miri-unit:' + flt, sample=sample,
+                         violations=[dict(key='miri-unit-test-failed:%s' % flt, what=so[-600:])], replay=dict(kind='miri-unit', filter=flt)))
+        else:
+            col.add(dict(verdict='inconclusive', why='Miri unit tests (%s) did not run: rc=%s %s' % (flt, p.returncode, se[-300:]), sample=sample))
+    return out
